@@ -30,6 +30,7 @@ func init() {
 
 func runC10(c *report.Ctx) {
 	checkReserveOneCriticalSection(c)
+	checkSingleAcquisition(c)
 	checkErrorIdentity(c, scopeFrontEnd, frontEndDeadCases, 8)
 	checkAwaitReleaseOnlyOnSuccess(c)
 	c.Clause("1 reservation test-and-set")
